@@ -408,9 +408,11 @@ class WebVTTWriter(BaseWriter):
         # Opening style tags written since the last text or line break; they
         # belong to the text that follows them.
         pending_tags = ""
+        # Whether a text node was written (its layout is current_layout)
+        has_text = False
         for i, node in enumerate(nodes):
             if node.type_ == CaptionNode.TEXT:
-                if s and current_layout and node.layout_info != current_layout:
+                if has_text and node.layout_info != current_layout:
                     # If the positioning changes from one text node to
                     # another, a new WebVTT cue has to be created. Tags
                     # opened just before this text move to the new cue.
@@ -423,6 +425,7 @@ class WebVTTWriter(BaseWriter):
                 s += self._encode_illegal_characters(node.content) or "&nbsp;"
                 pending_tags = ""
                 current_layout = node.layout_info
+                has_text = True
             elif node.type_ == CaptionNode.STYLE:
                 resulting_style = self._calculate_resulting_style(
                     node.content, caption_set
